@@ -8,3 +8,18 @@ import NdnGen.C08
 #print axioms Ndn.C08.unknown_noncritical_skipped
 #print axioms Ndn.C08.unknown_critical_rejected
 #print axioms Ndn.Gen.C08.shipped_wf
+#print axioms Ndn.C08.merge_is_assignment
+#print axioms Ndn.C08.merge_ok_iff
+#print axioms Ndn.C08.merged_order
+#print axioms Ndn.C08.merged_field_is_last_assignment
+#print axioms Ndn.C08.merged_plain
+#print axioms Ndn.C08.base_not_included_ignored
+#print axioms Ndn.C08.inherit_without_include
+#print axioms Ndn.C08.derived_encodes_in_merged_order
+#print axioms Ndn.Gen.C08.shipped_merge_ok
+#print axioms Ndn.C08.parse_wf
+#print axioms Ndn.C08.reencode_parses_back
+#print axioms Ndn.C08.reencode_succeeds
+#print axioms Ndn.Codec.parse_accept
+#print axioms Ndn.Codec.parse_size
+#print axioms Ndn.Codec.reencode_ok
